@@ -321,11 +321,17 @@ def r4_brackets(ctx):
     ctx.floor(rule, 'ChessMove::undo call sites', len(facts.call_sites(UNDO, crate='chess')), 3)
     ctx.floor(rule, 'Board::toggle_turn call sites', len(facts.call_sites(TOGGLE, crate='chess')), 5)
     brackets = 0
+    # a helper all of whose call sites are inside mutator roots is part of them (e.g. "apply and record in the history" shared by the three
+    # functions of Game that play a move for good)
+    root_helpers = facts.only_through(set(MUTATOR_ROOTS)) - set(MUTATOR_ROOTS)
     for name in sorted(targets):
         fn = facts.fns[name]
         ctx.touch(name)
         if name in MUTATOR_ROOTS:
             ctx.ob(rule, name, 'mutator-root', True, found=MUTATOR_ROOTS[name], nontrivial=False)
+            continue
+        if name in root_helpers:
+            ctx.ob(rule, name, 'mutator-root helper (every call site is inside a mutator root)', True, nontrivial=False)
             continue
         eng = Engine(facts, inline_filter=lambda n, c: False, max_paths=20000)
         try:
@@ -382,13 +388,16 @@ def r4_raw_mutators(ctx):
     facts = ctx.facts
     allowed_prefixes = tuple(list(KINDS.values()) + [BOARD + '::', CHESSMOVE + '::'])
     n = 0
+    # helpers that only ever run as part of a move kind's apply / undo (or of Board itself) are part of them
+    gates = {nm for nm in facts.fns if nm.startswith(allowed_prefixes)}
+    inside = facts.only_through(gates)
     for m in BOARD_MUTATORS:
         if m in ('toggle_turn',):
             continue
         callee = BOARD + '::' + m
         for f, b in facts.call_sites(callee, crate='chess', kinds=('lib', 'bin')):
             n += 1
-            ok = f.name.startswith(allowed_prefixes) or f.name.startswith('chess::board::Board::starting_position')
+            ok = f.name.startswith(allowed_prefixes) or f.name.startswith('chess::board::Board::starting_position') or (f.closure_of or f.name) in inside
             ctx.ob(rule, f.name, 'calls Board::%s' % m, ok, found=f.blocks[b]['term']['span'],
                    expected='raw placement/stack mutators are used only by the four move kinds and by Board itself',
                    why='a raw mutation outside apply/undo has no inverse registered and breaks undo/neutrality',
